@@ -94,6 +94,16 @@ CHECKS = {
          "10 initial texts (ASCII, Latin-1, CJK, astral in comment and string, CRLF, mixed, empty, no trailing newline, lone CR) x every range between UTF-16 boundaries in a window (incl. one past-end-of-line column) x 6 replacements, single/two-change/full/mixed notifications; two families (wide: 1 notification, deep: 2 quick / 3 thorough).",
          "Whitespace-only differences inside reformatted lines and line-terminator kind are invisible through the compared answers; undefined positions (inside a surrogate pair, past the last line) are not sent.",
          "DESIGN.md §5 C14"),
+ "C16": ("exploration",
+         "bounded-exhaustive enumeration of generated projects (every subset of up to 1 / 2 of 19 declaration slots named x, single- and two-file layouts, uniform and mixed-case spelling) x every identifier token as rename position x a menu of new names (fresh, colliding in outer/inner/sibling/same scope, case variants, built-ins, keywords, invalid), each executed on the real trust_ide::rename, re-analysed with the HIR and executed with TestHarness",
+         "Every accepted rename: edits in bounds, disjoint, each exactly one identifier token spelt like the old name; diagnostics equal up to the name; the renamed project compiles and its state after each of 3 cycles equals the original's modulo the renaming; every occurrence resolves to the same (edit-adjusted) declaration; renaming back restores the text byte for byte.",
+         "One input trace, 3 cycles; goto-definition-only differences not confirmed by diagnostics or execution are counted, not reported; dotted names, enums, EXTENDS, properties and actions are not generated.",
+         "DESIGN.md §5 C16"),
+ "C15": ("exploration",
+         "bounded-exhaustive enumeration of texts (every ordered pair of 68 representative tokens in 6 line contexts; every repository .st file and each of its single-line deletions/duplications; all sequences of <= 2 / 3 segments mixing code, comments, pragmas and tricky strings x separators x line endings; crafted programs) x formatter configurations (pairwise covering array of 8 option dimensions quick, full product thorough) x every line interval for rangeFormatting and every line end x trigger character for onTypeFormatting, through the REAL trust-lsp binary over stdio and WebIdeState::format_source; oracle via trust_syntax::lex on both sides",
+         "Every (text, configuration): same non-trivia token sequence (keywords case-insensitively, everything else byte for byte), same comments/pragmas/strings in order, format(format(s)) = format(s), applying range / on-type edits preserves tokens and specials.",
+         "Inputs with lexer Error tokens only require no crash and preserved token texts; astral characters and lone CR belong to C14; dropping blank lines is not a violation.",
+         "DESIGN.md §5 C15"),
 }
 
 NOT_APPLICABLE = {
